@@ -605,6 +605,103 @@ def gen_overfull(rng, algo, nettype, degree=3):
                   conns, shuffle=False)
 
 
+def gen_partial_side(rng, algo, nettype, m=2, n=3):
+    """m x n mesh with tiles on every router and a boundary array that covers only part of the West side"""
+    aw = 48
+    cfg = base_cfg(rng, "pside", nettype, algo, aw)
+    alloc = AddrAlloc(rng, aw)
+    tile = mk_endpoint(rng, nettype, alloc, "tile", array=[m, n], force_role="dual")
+    hbm = mk_endpoint(rng, nettype, alloc, "hbm", array=[n - 1], force_role="sbr")
+    conns = [{"src": "tile", "dst": "router", "src_range": [[0, m - 1], [0, n - 1]],
+              "dst_range": [[0, m - 1], [0, n - 1]], "dst_dir": "Eject"},
+             {"src": "hbm", "dst": "router", "src_range": [[0, n - 2]], "dst_range": [[0, 0], [0, n - 2]], "dst_dir": "West"}]
+    return finish(rng, cfg, [tile, hbm], [{"name": "router", "array": [m, n], "degree": 5}], conns, shuffle=False)
+
+
+def gen_tree_manual(rng, algo, nettype):
+    """a router tree [2, 1] declared with auto_connect false and wired by hand, not along parent-child pairs"""
+    aw = 48
+    cfg = base_cfg(rng, "handtree", nettype, algo, aw)
+    alloc = AddrAlloc(rng, aw)
+    leaf = mk_endpoint(rng, nettype, alloc, "tile", array=[2], force_role="dual")
+    host = mk_endpoint(rng, nettype, alloc, "host", force_role="dual")
+    conns = [{"src": "tile", "dst": "router", "src_range": [[0, 1]], "dst_lvl": 1},
+             {"src": "host", "dst": "router", "dst_idx": [0]},
+             {"src": "router", "src_idx": [0], "dst": "router", "dst_idx": [1]},
+             {"src": "router", "src_idx": [0], "dst": "router", "dst_idx": [1, 0]},
+             {"src": "router", "src_idx": [1], "dst": "router", "dst_idx": [0, 0]}]
+    return finish(rng, cfg, [leaf, host], [{"name": "router", "tree": [2, 1], "auto_connect": False}], conns, shuffle=False)
+
+
+def gen_degree_mesh(rng, algo, nettype, degree):
+    """a row of three routers whose port count is not five: degree 4 has no Eject port (endpoints sit on the
+    North ports), degree 6/7 has spare local ports"""
+    aw = 48
+    cfg = base_cfg(rng, "deg", nettype, algo, aw)
+    alloc = AddrAlloc(rng, aw)
+    tile = mk_endpoint(rng, nettype, alloc, "tile", array=[3], force_role="dual")
+    conns = [{"src": "tile", "dst": "router", "src_range": [[0, 2]], "dst_range": [[0, 2], [0, 0]],
+              "dst_dir": "North" if degree == 4 else "Eject"}]
+    eps = [tile]
+    if degree >= 6 and algo != "XY":     # a numbered local port has no XY coordinate: spare ports stay free there
+        io = mk_endpoint(rng, nettype, alloc, "io", force_role="dual")
+        eps.append(io)
+        conns.append({"src": "io", "dst": "router", "dst_idx": [1, 0], "dst_dir": 5})
+    return finish(rng, cfg, eps, [{"name": "router", "array": [3, 1], "degree": degree}], conns, shuffle=False)
+
+
+def gen_ring_eject(rng, algo, nettype, num=4):
+    """single routers r0..r(num-1) in a ring; the closing link sits on port 4 (`Eject`) of both routers"""
+    aw = 48
+    cfg = base_cfg(rng, "ring4", nettype, algo, aw)
+    alloc = AddrAlloc(rng, aw)
+    eps, conns = [], []
+    for k in range(num):
+        eps.append(mk_endpoint(rng, nettype, alloc, f"e{k}", force_role="dual"))
+        conns.append({"src": f"e{k}", "dst": f"r{k}"})
+    for k in range(num - 1):
+        conns.append({"src": f"r{k}", "dst": f"r{k + 1}"})
+    conns.append({"src": f"r{num - 1}", "dst": "r0", "src_dir": 4, "dst_dir": 4})
+    return finish(rng, cfg, eps, [{"name": f"r{k}", "degree": 5} for k in range(num)], conns, shuffle=False)
+
+
+def gen_hub_bypass(rng, algo, nettype, leaves=3, route_bits=6):
+    """a high-radix hub between ra and rb plus a longer way round over two pass-through routers;
+    the description also spells out `num_route_bits` (which floogen derives itself)"""
+    aw = 48
+    cfg = base_cfg(rng, "hubby", nettype, algo, aw)
+    cfg["routing"]["num_route_bits"] = route_bits
+    alloc = AddrAlloc(rng, aw)
+    eps, conns = [], []
+    rts = ["ra", "rb", "hub", "rc", "rd"] + [f"rl{k}" for k in range(leaves)]
+    for e, r in [("a", "ra"), ("b", "rb")] + [(f"l{k}", f"rl{k}") for k in range(leaves)]:
+        eps.append(mk_endpoint(rng, nettype, alloc, e, force_role="dual"))
+        conns.append({"src": e, "dst": r})
+    conns += [{"src": "ra", "dst": "hub"}, {"src": "hub", "dst": "rb"}]
+    conns += [{"src": "hub", "dst": f"rl{k}"} for k in range(leaves)]
+    conns += [{"src": "ra", "dst": "rc"}, {"src": "rc", "dst": "rd"}, {"src": "rd", "dst": "rb"}]
+    return finish(rng, cfg, eps, [{"name": r} for r in rts], conns, shuffle=False)
+
+
+def gen_chain_xbar(rng, algo, nettype, m=5, k=8):
+    """a chain of low-radix routers with one endpoint at either end and a crossbar with k endpoints hanging off
+    its middle: the route with the most hops is not the one with the most bits"""
+    aw = 48
+    cfg = base_cfg(rng, "chainx", nettype, algo, aw)
+    alloc = AddrAlloc(rng, aw)
+    eps, conns = [], []
+    for e, r in [("left", "c0"), ("right", f"c{m - 1}")]:
+        eps.append(mk_endpoint(rng, nettype, alloc, e, force_role="dual"))
+        conns.append({"src": e, "dst": r})
+    for j in range(m - 1):
+        conns.append({"src": f"c{j}", "dst": f"c{j + 1}"})
+    conns.append({"src": f"c{m // 2}", "dst": "xbar"})
+    for j in range(k):
+        eps.append(mk_endpoint(rng, nettype, alloc, f"p{j}", force_role="dual"))
+        conns.append({"src": f"p{j}", "dst": "xbar"})
+    return finish(rng, cfg, eps, [{"name": f"c{j}"} for j in range(m)] + [{"name": "xbar"}], conns, shuffle=False)
+
+
 def gen_deep_tree(rng, algo, nettype, tree):
     """a big router tree with endpoints on the root only (names with three numeric segments)"""
     aw = 48
